@@ -1391,6 +1391,111 @@ example : maxNbAWC (fun j => (j : ℚ)) (fun _ j => if j = 1 then 1 else 0) 3 0 
   decide +kernel
 example : histCounts 2 (0 : ℚ) 2 [0, 1, 2, 1, 0, 1, 2, 1, 0] = [3, 6] := by decide +kernel
 
+/-! ## round 4: the distance histograms are probability distributions -/
+
+private theorem foldl_add_eq_list_sum (l : List ℚ) (a : ℚ) : l.foldl (· + ·) a = a + l.sum := by
+  induction l generalizing a with
+  | nil => simp
+  | cons x xs ih => simp [List.foldl_cons, ih, add_assoc]
+
+/-- `dist / dist.sum()`: whenever numpy's result is finite (non-zero sum) the normalised
+histogram has as many bins as the counts and sums to exactly 1 -/
+theorem normalize_sum (c r : List ℚ) (h : normalize c = some r) :
+    r.sum = 1 ∧ r.length = c.length := by
+  unfold normalize at h
+  simp only [foldl_add_eq_list_sum, zero_add] at h
+  split at h
+  · cases h
+  · rename_i hs
+    cases h
+    refine ⟨?_, by simp⟩
+    simp only [div_eq_mul_inv]
+    rw [List.sum_map_mul_right]
+    simp only [List.map_id']
+    exact mul_inv_cancel₀ hs
+
+/-- **`geometric_distance_distribution(n_bins)[0]`** — whenever the method returns finite
+values they are `n_bins` relative frequencies summing to 1 -/
+theorem geomDistDist_sum (D : Nat → Nat → ℚ) (N nb : Nat) (r : List ℚ)
+    (h : geomDistDist D N nb = .ok (some r)) : r.sum = 1 ∧ r.length = nb := by
+  unfold geomDistDist at h
+  cases hc : geomCounts D N nb with
+  | error e => rw [hc] at h; cases h
+  | ok c =>
+    rw [hc] at h
+    simp only [Except.map] at h
+    have hn : normalize (c.map fun (k : Int) => (k : ℚ)) = some r := by
+      injection h
+    obtain ⟨h1, h2⟩ := normalize_sum _ _ hn
+    refine ⟨h1, ?_⟩
+    rw [h2, List.length_map]
+    unfold geomCounts at hc
+    split at hc
+    · cases hc
+    · split at hc
+      · cases hc
+      · injection hc with hc; rw [← hc]; simp
+
+theorem linkCounts_length (D A : Nat → Nat → ℚ) (N nb : Nat) (c : List Nat)
+    (h : linkCounts D A N nb = .ok c) : c.length = nb := by
+  unfold linkCounts at h
+  split at h
+  · cases h
+  · split at h
+    · cases h
+    · injection h with h; rw [← h]; simp [histCounts]
+
+/-- **`link_distance_distribution(n_bins, geometry_corrected)[0]`** — both with and without the
+geometry correction a finite result consists of `n_bins` values summing to 1 -/
+theorem linkDistDist_sum (D Dg A : Nat → Nat → ℚ) (N nb : Nat) (corr : Bool) (r : List ℚ)
+    (h : linkDistDist D Dg A N nb corr = .ok (some r)) : r.sum = 1 ∧ r.length = nb := by
+  unfold linkDistDist at h
+  cases hc : linkCounts D A N nb with
+  | error e => rw [hc] at h; cases h
+  | ok c =>
+    have hlen := linkCounts_length D A N nb c hc
+    rw [hc] at h
+    simp only [bind, Except.bind] at h
+    cases corr with
+    | false =>
+      simp only [Bool.false_eq_true, if_false, pure, Except.pure] at h
+      injection h with h
+      cases hrel : normalize (c.map fun (k : Nat) => (k : ℚ)) with
+      | none => rw [hrel] at h; cases h
+      | some rel =>
+        rw [hrel] at h
+        simp only [Option.bind_some] at h
+        obtain ⟨_, l1⟩ := normalize_sum _ _ hrel
+        obtain ⟨s2, l2⟩ := normalize_sum _ _ h
+        exact ⟨s2, by rw [l2, l1, List.length_map, hlen]⟩
+    | true =>
+      simp only [if_true] at h
+      cases hg : geomDistDist Dg N nb with
+      | error e => rw [hg] at h; cases h
+      | ok g =>
+        rw [hg] at h
+        simp only [pure, Except.pure] at h
+        injection h with h
+        cases hrel : normalize (c.map fun (k : Nat) => (k : ℚ)) with
+        | none => rw [hrel] at h; cases h
+        | some rel =>
+          cases g with
+          | none => rw [hrel] at h; cases h
+          | some gd =>
+            rw [hrel] at h
+            simp only at h
+            split at h
+            · cases h
+            · obtain ⟨_, l1⟩ := normalize_sum _ _ hrel
+              obtain ⟨_, lg⟩ := geomDistDist_sum Dg N nb gd hg
+              obtain ⟨s2, l2⟩ := normalize_sum _ _ h
+              refine ⟨s2, ?_⟩
+              rw [l2, List.length_map, List.length_zip, l1, lg, List.length_map, hlen]
+              simp
+
+example : geomDistDist (fun i j => if i ≤ j then ((j : ℚ) - i) else ((i : ℚ) - j)) 3 2
+    = .ok (some [0, 1]) := by decide +kernel
+
 /-! ## round 4: the grid as an object; area-weighted distance measures -/
 
 /-- **`Grid.euclidean_distance()` of a grid object of any dimension** (`N_dim =
